@@ -139,6 +139,8 @@ void liblcb_verif_point(const char *label, const void *a, const void *b, uintptr
 	int saved_errno = errno;
 	if (0 == strcmp(label, "proc.enter")) { /* TLS of the pool thread is not set yet */
 		vh_tid = (int)((const tp_thread_t *)a)->thread_num;
+	} else if (0 == strcmp(label, "create.pvt_running")) { /* tp_create has not returned yet: learn the pool */
+		g_tp = (tp_p)(uintptr_t)a;
 	}
 	pthread_mutex_lock(&g_log_mu);
 	if (0 == strcmp(label, "send.enter")) {
@@ -541,6 +543,12 @@ static void *ext_main(void *arg) {
 	run_prog(g_act[i].name, g_act[i].prog);
 	return NULL;
 }
+static void on_crash(int sig) {
+	/* a crash inside the library (e.g. a pool thread touching freed pool memory) is an observation */
+	g_log_len += (size_t)snprintf(g_log + g_log_len, 128, "{\"n\":%ld,\"t\":%d,\"e\":\"Crash\",\"sig\":%d}\n", ++g_seq, vh_tid, sig);
+	flush_log();
+	_exit(4);
+}
 static void on_alarm(int sig) {
 	(void)sig;
 	/* not async-signal-safe in general; acceptable for a watchdog that terminates the process */
@@ -558,6 +566,7 @@ int main(int argc, char **argv) {
 	if (__sanitizer_set_death_callback) __sanitizer_set_death_callback(flush_log);
 	signal(SIGALRM, on_alarm);
 	signal(SIGPIPE, SIG_IGN);
+	signal(SIGSEGV, on_crash); signal(SIGBUS, on_crash);
 	g_log_cap = 1u << 22; g_log = malloc(g_log_cap);
 	FILE *f = fopen(argv[1], "r");
 	if (!f) { perror("scenario"); return 2; }
